@@ -172,7 +172,7 @@ class ScriptRunner:
 
     def is_async(self, t):
         if t[0] == 'fs':
-            return t[2] in ('amem', 'aalt', 'aovl')
+            return t[2] in ('amem', 'aalt', 'aovl', 'apend')
         if t[0] in ('join', 'parent', 'root'):
             return t[2] in self.async_vars
         if t[0] in ('hwrite', 'hflush', 'hseek', 'hread', 'hdrop', 'wnext', 'wdrop'):
@@ -189,7 +189,13 @@ class ScriptRunner:
             w = self.aw
             if t[0] == 'fs':
                 self.async_vars.add(t[1])
-                t = [t[0], t[1], {'amem': 'mem', 'aalt': 'alt', 'aovl': 'ovl'}[t[2]]] + t[3:]
+                if t[2] == 'apend':
+                    # async memory fs whose external futures (lock acquisitions) return Pending n times first
+                    n_ = int(t[3])
+                    self.ex.hooks['pending'] = lambda ex_, what: n_
+                    t = [t[0], t[1], 'mem']
+                else:
+                    t = [t[0], t[1], {'amem': 'mem', 'aalt': 'alt', 'aovl': 'ovl'}[t[2]]] + t[3:]
             elif t[0] in ('join', 'parent', 'root', 'hopen', 'wopen'):
                 self.async_vars.add(t[1])
         else:
@@ -493,7 +499,9 @@ def run_native(script_text, profile='dev', path=None):
         r = subprocess.run([b, path], capture_output=True, text=True, timeout=120)
         if r.returncode != 0:
             raise RuntimeError('native driver failed (%d): %s' % (r.returncode, r.stderr[-2000:]))
-        return r.stdout.strip().split('\n') if r.stdout.strip() else []
+        # the library itself prints to stdout in places (a leftover println! in async create_dir_all): keep driver lines only
+        import re as _re
+        return [l for l in r.stdout.split('\n') if _re.match(r'\d+ \S', l) or l.startswith('#!')]
     finally:
         if rm:
             os.unlink(path)
